@@ -137,10 +137,34 @@ def silencing_is_bracketed(ctx):
     ctx.floor("silencing_functions", 2, "functions that write LogStream::Control::DISABLE (DetectorGroup::check, Ruleset::run_action_chain)")
 
 
+def logger_is_built_on_an_open_kmsg_descriptor(ctx):
+    """'Silencing never suppresses the kmsg kill record': the record escapes silencing only because kmsgLog writes it straight to the kmsg
+    descriptor.  Log::init therefore builds the process-wide logger only with a descriptor that open() returned (>= 0): when the kmsg path
+    cannot be opened it fails (main refuses to start) instead of building a logger with kmsg_fd = -1, whose kmsgLog falls back to OLOG -
+    which a silenced thread drops."""
+    P, cg = ctx.prog, ctx.cg
+    f = ctx.use(ctx.fn1("Oomd::Log::init"))
+    gets = [i for i in f.calls("Log::get") if f.nodes[i].get("args") and f.pos_of(i) is not None]
+    ctx.counters["log_get_in_init"] = len(gets)
+    ctx.floor("log_get_in_init", 1, "Log::get call in Log::init")
+    opened = locals_receiving(f, r"(?<![\w:])(::)?open(at)?\(")
+    fl = Flow(P, f, cg=cg)
+    for i in gets:
+        a0 = f.text(f.nodes[i]["args"][0])
+        g = fl.guards(i)
+        ok = a0 in opened and any(isinstance(k, str) and ((k in ("(%s < 0)" % a0, "(0 > %s)" % a0, "(%s == -1)" % a0, "(-1 == %s)" % a0) and p is False) or
+                                                          (k in ("(%s >= 0)" % a0, "(0 <= %s)" % a0) and p is True)) for k, p in g)
+        ctx.check(ok, "logger-is-built-on-an-open-kmsg-descriptor", "guarded_by", f.loc(i),
+                  "Log::get receives a descriptor that open() returned successfully",
+                  "Log::init builds the process-wide logger with '%s' although the open may have failed (no dominating '%s >= 0'): with kmsg_fd = -1 the kill record "
+                  "has no path that escapes silencing - under silence-logs: plugins it appears nowhere" % (a0, a0), witness_path(f, fl, i))
+
+
 def run(ctx):
     # locals / parameters the rules below refer to by name (a rename makes the analysis 'broken', never a violation)
     P, cg = ctx.prog, ctx.cg
     nothing_logs_before_log_init(ctx)
+    logger_is_built_on_an_open_kmsg_descriptor(ctx)
     silencing_is_bracketed(ctx)
     process_logger_is_destroyed_at_exit(ctx)
     LA = LockAnalysis(P, cg)
